@@ -22,11 +22,11 @@ CMDSETS = [
 POOLS = {
     "string": ["w", "foo-bar", "a=b", "x y", "é", "7", "tr'ue", 'q"t', "NULL"],
     "boolean": list(BOOLW),
-    "integer": ["5", "0", "42", "007", "+3", "1_0"],
-    "float": ["1.5", "0.25", "1e3", "3", ".5", "inf"],
+    "integer": ["5", "0", "42", "007", "+3", "1_0", "9007199254740993", "123456789012345678901234567890"],
+    "float": ["1.5", "0.25", "1e3", "3", ".5", "inf", "0.1", "1e-7"],
 }
 SMALL_POOLS = {"string": ["w", "a=b"], "boolean": ["yes", "0"], "integer": ["5", "007"], "float": ["1.5", "3"]}
-AFTER_DD = {"string": ["-x", "--zz", "-", "--alpha=1", "--"], "integer": ["-3"], "float": ["-0.5", "-1e2"], "boolean": []}
+AFTER_DD = {"string": ["-x", "--zz", "-", "--alpha=1", "--"], "integer": ["-3", "-9223372036854775809"], "float": ["-0.5", "-1e2"], "boolean": []}
 DEFAULTS = {"string": "dflt", "boolean": True, "integer": 9, "float": 2.5}
 
 
